@@ -110,8 +110,8 @@ def run_instance(inst, tier):
     names = [t[0] for t in tops]
     N = inst["N"]
     prev = None
-    for pl, variant in [(pl, v) for pl in inst["placements"] for v in (None, "reversed-insertion", "string-labels", "large-int-labels")]:
-        if variant and len(pl) > (4 if variant == "reversed-insertion" else (3 if variant == "large-int-labels" else 2)):
+    for pl, variant in [(pl, v) for pl in inst["placements"] for v in (None, "reversed-insertion", "string-labels", "large-int-labels", "list-annotations")]:
+        if variant and len(pl) > (4 if variant == "reversed-insertion" else (3 if variant in ("large-int-labels", "list-annotations") else 2)):
             continue
         net, jds, rows = netgen.build_network(N, tops, pl, relabel=variant)
         want_ejks, want_keys = expected(N, tops, jds, rows)
@@ -124,12 +124,25 @@ def run_instance(inst, tier):
             res.violation("C13:constructor", f"{desc}: constructor raised {e!r}", desc)
             continue
         res.states += 1
+        from gcmpy.names.network_names import NetworkNames as _NN
+        annotations = {n: (type(net.G.nodes[n][_NN.JOINT_DEGREE]), list(net.G.nodes[n][_NN.JOINT_DEGREE]))
+                       for n in net.G.nodes()}
         for call in range(1, 4):
             res.executions += 1
             res.transitions += 1
             try:
                 m = ex.get_ejks()
                 bad = compare(m, want_ejks, want_keys, names)
+                if bad is None:
+                    now = {n: (type(net.G.nodes[n][_NN.JOINT_DEGREE]), list(net.G.nodes[n][_NN.JOINT_DEGREE]))
+                           for n in net.G.nodes()}
+                    if now != annotations:
+                        bad = ("C13:network-annotations-changed", "extraction changed the vertex annotations of the "
+                               f"network: {[(n, now[n][1]) for n in now if now[n] != annotations[n]][:3]}")
+                if bad is None and call == 2:
+                    # the caller empties the matrices it was handed: the next extraction must not depend on them
+                    for n in names:
+                        m.ejks[n].clear()
             except Exception as e:
                 bad = ("C13:raises", repr(e))
             if bad:
